@@ -239,6 +239,11 @@ func decodePointsCompressed(d *decoder, level int, target []Point) {
 	if d.err != nil {
 		return
 	}
+	if numOffCenter < 0 {
+		// The count does not fit in an int.
+		d.err = fmt.Errorf("numOffCenter = %d, should be at most len(target) = %d", uint64(numOffCenter), len(target))
+		return
+	}
 	if numOffCenter > len(target) {
 		d.err = fmt.Errorf("numOffCenter = %d, should be at most len(target) = %d", numOffCenter, len(target))
 		return
@@ -246,6 +251,11 @@ func decodePointsCompressed(d *decoder, level int, target []Point) {
 	for i := 0; i < numOffCenter; i++ {
 		idx := int(d.readUvarint())
 		if d.err != nil {
+			return
+		}
+		if idx < 0 {
+			// The index does not fit in an int.
+			d.err = fmt.Errorf("off center index = %d, should be < len(target) = %d", uint64(idx), len(target))
 			return
 		}
 		if idx >= len(target) {
